@@ -211,7 +211,7 @@ func runC18(p *Prog, r *Report, tier string) {
 			rv, ok := c.fields["RootCAs"]
 			why := "RootCAs is not set: the system roots are trusted instead of the configured CA"
 			if ok {
-				why = poolProvenance(p, rv, c.alloc, []string{"pkg/exporter.ExporterTLSClientConfig.CAData"})
+				why = poolProvenance(p, rv, c.stores["RootCAs"], []string{"pkg/exporter.ExporterTLSClientConfig.CAData"})
 			}
 			r.Check(why == "", "R-TLS.root-cas", id+": RootCAs", pos, "fresh pool filled from the caller's CAData, result checked before the config is built", why, true)
 			sn, ok := c.fields["ServerName"]
@@ -222,7 +222,7 @@ func runC18(p *Prog, r *Report, tier string) {
 			}
 			r.Check(okSN, "R-TLS.server-name", id+": ServerName", pos, "taken from the caller's ServerName", "ServerName is not set from the caller's configuration: the expected name is not what gets verified", true)
 			if cv, ok := c.fields["Certificates"]; ok {
-				why := certProvenance(p, cv, c.alloc)
+				why := certProvenance(p, cv, c.stores["Certificates"])
 				r.Check(why == "", "R-TLS.keypair", id+": Certificates", pos, "from tls.X509KeyPair with its error returned", why, true)
 			}
 		} else {
@@ -233,7 +233,7 @@ func runC18(p *Prog, r *Report, tier string) {
 			}
 			if c.kind == "tls" {
 				if cv, ok := c.fields["Certificates"]; ok {
-					why := certProvenance(p, cv, c.alloc)
+					why := certProvenance(p, cv, c.stores["Certificates"])
 					r.Check(why == "", "R-TLS.keypair", id+": Certificates", pos, "from tls.X509KeyPair with its error returned", why, true)
 				} else {
 					r.Violation("R-TLS.keypair", id+": Certificates", pos, "the server config has no certificate")
